@@ -98,7 +98,7 @@ impl Prop for C05 {
 		]
 	}
 	fn expected_probes(&self) -> Vec<&'static str> {
-		vec!["approx_block_size_zero", "compressed_block_gt_32k_bzip2", "compressed_block_gt_32k_deflate", "compressed_block_gt_32k_snappy", "compressed_block_gt_32k_xz", "compressed_block_gt_32k_zstandard", "decompressed_size_multiple_of_8192", "push_of_zero_objects", "refill_boundary_inside_block_header_trailer_or_sync", "written_through_write_all"]
+		vec!["long_history", "long_history_above_65535_values", "approx_block_size_zero", "compressed_block_gt_32k_bzip2", "compressed_block_gt_32k_deflate", "compressed_block_gt_32k_snappy", "compressed_block_gt_32k_xz", "compressed_block_gt_32k_zstandard", "decompressed_size_multiple_of_8192", "push_of_zero_objects", "refill_boundary_inside_block_header_trailer_or_sync", "written_through_write_all"]
 	}
 	fn budget(&self, tier: Tier) -> (u64, u64) {
 		match tier {
